@@ -29,6 +29,10 @@ pub fn short_file(f: &str) -> String {
     if f.starts_with("/repo/") {
         return f[6..].to_string();
     }
+    // the mirrored copy of /repo/src the shadow crate is built from (tools/mirror.sh)
+    if let Some(i) = f.find("src-gen/") {
+        return format!("src/{}", &f[i + 8..]);
+    }
     if let Some(i) = f.rfind("/registry/src/") {
         let rest = &f[i + 14..];
         if let Some(j) = rest.find('/') {
